@@ -4,6 +4,7 @@ SQLalchemy emitters
 
 from ast import Assign, Call, ClassDef, Expr, Load, Name, Store, keyword
 from collections import OrderedDict
+from copy import deepcopy
 from functools import partial
 from itertools import chain
 from operator import add
@@ -74,6 +75,7 @@ def sqlalchemy_table(
     :return: AST of the Table expression + assignment
     :rtype: ```ClassDef```
     """
+    intermediate_repr = deepcopy(intermediate_repr)
     return Assign(
         targets=[
             Name(
@@ -259,6 +261,7 @@ def sqlalchemy(
     :rtype: ```ClassDef```
     """
 
+    intermediate_repr = deepcopy(intermediate_repr)
     if class_name is None and intermediate_repr["name"]:
         class_name: Optional[str] = intermediate_repr["name"]
     assert class_name is not None, "`class_name` is `None`"
@@ -456,6 +459,7 @@ def sqlalchemy_hybrid(
     :rtype: ```ClassDef```
     """
 
+    intermediate_repr = deepcopy(intermediate_repr)
     if class_name is None and intermediate_repr["name"]:
         class_name: str = intermediate_repr["name"]
     assert class_name is not None, "`class_name` is `None`"
